@@ -65,6 +65,15 @@ def check_formatfield(world, ctx):
         re.search(r'_read_stream\(\s*stream\s*,\s*self\.length\s*\)', src) is not None
     ctx.ob('L-PRIM', 'construct/core.py:FormatField._parse', 'reads self.length bytes', bool(ok),
            msg='FormatField._parse no longer reads exactly self.length bytes through _read_stream', line=f.node.lineno)
+    # every returning path hands back what the struct packer makes of exactly those bytes: the format character carries width *and*
+    # signedness, so a path that indexes the bytes itself (data[0]) decodes every signed field of that width as unsigned
+    from . import expr as _e
+    env0 = _e.FEnv(f.node, params=('stream', 'context'), inline=True)
+    rows = _e.return_rows(f.node, env0)
+    want = _e.nfs(ast.parse('self.packer.unpack(_read_stream(stream, self.length))[0]', mode='eval').body, env0)
+    vals = sorted(set(v for c, v in rows))
+    ctx.ob('L-PRIM', 'construct/core.py:FormatField._parse', 'every returning path returns packer.unpack(bytes read)[0]', vals == [want], got=vals, expected=[want],
+           msg='a decoding path of the fixed-width integer fields bypasses the struct packer, which is what knows the signedness and byte order', line=f.node.lineno)
     init = m.func('construct/core.py', 'FormatField.__init__')
     isrc = ast.unparse(init.node)
     ok2 = re.search(r'StaticField\.__init__\(\s*self\s*,\s*name\s*,\s*self\.packer\.size\s*\)', isrc) is not None
